@@ -631,7 +631,9 @@ Definition check_eqhash (c : oobs * oobs * Z * bool) : Z :=
   end.
 
 (* write attempts (w: 0 o[i]=x, 1 o.fmt=x, 2 o.jd1[i]=x, 3 o.val[i]=x, 4 o+=x, 5 o.jd2=x, 6 del o.fmt,
-   7 o.sort(), 8 o.fill(x)): each must raise and leave every observable unchanged.
+   7 o.sort(), 8 o.fill(x), 9 o.jd2[...]=x, 10/11 o.jd1/jd2[...]+=x, 12 np.asarray(o)[...]=x, 13 o.jd1[0]=x,
+   14 np.copyto(o.jd2, x)) on every kind of derived object: each must raise and leave every observable and the
+   hash unchanged.
    verdict 2 = the attribute deletion went through (no __delattr__ guard) *)
 Definition check_write (c : Z * bool * bool) : Z :=
   match c with
